@@ -70,6 +70,8 @@ def time_execution(
 
 # Global semaphore registry for retry decorator
 GLOBAL_RETRY_SEMAPHORES: dict[str, asyncio.Semaphore] = {}
+# asyncio.Semaphore binds itself to the event loop it is first contended in, so remember which loop each one was created for
+GLOBAL_RETRY_SEMAPHORE_LOOPS: dict[str, asyncio.AbstractEventLoop] = {}
 GLOBAL_RETRY_SEMAPHORE_LOCK = threading.Lock()
 
 # Multiprocess semaphore support
@@ -187,13 +189,18 @@ def _get_or_create_semaphore(
                 logger.warning(f'Falling back to asyncio semaphore for {sem_key} due to filesystem issues')
                 with GLOBAL_RETRY_SEMAPHORE_LOCK:
                     fallback_key = f'multiprocess_fallback_{sem_key}'
-                    if fallback_key not in GLOBAL_RETRY_SEMAPHORES:
+                    current_loop = asyncio.get_running_loop()
+                    if fallback_key not in GLOBAL_RETRY_SEMAPHORES or GLOBAL_RETRY_SEMAPHORE_LOOPS.get(fallback_key) is not current_loop:
                         GLOBAL_RETRY_SEMAPHORES[fallback_key] = asyncio.Semaphore(semaphore_limit)
+                        GLOBAL_RETRY_SEMAPHORE_LOOPS[fallback_key] = current_loop
                     return GLOBAL_RETRY_SEMAPHORES[fallback_key]
     else:
         with GLOBAL_RETRY_SEMAPHORE_LOCK:
-            if sem_key not in GLOBAL_RETRY_SEMAPHORES:
+            # a semaphore cached by an earlier event loop (e.g. a previous asyncio.run()) cannot be waited on in this one
+            current_loop = asyncio.get_running_loop()
+            if sem_key not in GLOBAL_RETRY_SEMAPHORES or GLOBAL_RETRY_SEMAPHORE_LOOPS.get(sem_key) is not current_loop:
                 GLOBAL_RETRY_SEMAPHORES[sem_key] = asyncio.Semaphore(semaphore_limit)
+                GLOBAL_RETRY_SEMAPHORE_LOOPS[sem_key] = current_loop
             return GLOBAL_RETRY_SEMAPHORES[sem_key]
 
 
